@@ -8,6 +8,7 @@
 -/
 import Lemmas.Adj
 import Lemmas.BestPathHist
+import Lemmas.WorldAdj
 namespace C02
 open BestPath World
 
@@ -44,6 +45,33 @@ theorem withdraw_removes (l : List Cand) (x : Cand) (hn : NodupKey l) :
   intro y hy
   have := (List.mem_filter.mp hy).2
   simpa using this
+
+/-- **World level: nothing outlives its Adj-RIB-In entry.** For every configuration of peers
+    with pairwise different addresses and EVERY history of session up / down, announcements,
+    replacements (accepted or loop-rejected), withdrawals, locally injected routes, AddPeer and
+    DeletePeer: each path in the Loc-RIB sits under its own prefix, is the only one there with
+    its (source, path-id), and is either locally injected or was learned from a peer that is
+    still configured AND still stores a non-rejected Adj-RIB-In entry with that (prefix,
+    path-id). So a withdrawn route, a route replaced by a loop-rejected one, the routes of a
+    session that went down and the routes of a deleted peer are all gone from the Loc-RIB. -/
+theorem locrib_within_adjin (g : Global) (cfgs : List PeerCfg)
+    (haddr : cfgs.Pairwise (fun a b => a.addr ≠ b.addr))
+    (hidx : cfgs.Pairwise (fun a b => a.idx ≠ b.idx)) (ops : List WOp) :
+    let w := ops.foldl step (init g cfgs)
+    ∀ pfx, NodupKey (w.ribOf pfx) ∧ ∀ r ∈ w.ribOf pfx, r.pfx = pfx ∧
+      (r.src = localSrc ∨ ∃ ps ∈ w.peers, r.src = ps.cfg.srcInfo w.g ∧
+        ∃ a ∈ ps.adj.entries, a.rejected = false ∧ a.r.pfx = pfx ∧ a.r.pathId = r.pathId) := by
+  intro w pfx
+  have hf := run_full (init g cfgs) ops (init_full g cfgs haddr hidx)
+  refine ⟨ribOf_nodup w hf.inv pfx, ?_⟩
+  intro r hr
+  obtain ⟨e, he, hep, hre⟩ := mem_ribOf w pfx r hr
+  obtain ⟨hp, hs⟩ := hf.inv.rib e he r hre
+  refine ⟨hp.trans hep, ?_⟩
+  rcases hs with hl | ⟨ps, hps, hsrc⟩
+  · exact Or.inl hl
+  · obtain ⟨a, ha, h1, h2, h3⟩ := (hf.adj ps hps).2 e he r hre hsrc
+    exact Or.inr ⟨ps, hps, hsrc, a, ha, h1, h2.trans (hp.trans hep), h3⟩
 
 /-! ### non-vacuity -/
 
